@@ -10,7 +10,9 @@ Directive syntax inside a template (`verus/units/<unit>.rs.in`):
   //@| <invariant / decreases text placed between the loop head and its '{'>
   //@      (iter=<ident>: `for PAT in EXPR` becomes `for PAT in <ident>: EXPR`, Verus's syntax for naming the ghost iterator)
   //@      (enum=<ident>: `for (I, PAT) in EXPR.iter().enumerate() {` becomes
-  //@       `let <ident> = EXPR; for I in 0..<ident>.len() { let PAT = &<ident>[I];` -- the one rewriting, see below)
+  //@       `let <ident> = EXPR; for I in 0..<ident>.len() { let PAT = &<ident>[I];` -- a loop-head rewriting, see below)
+  //@      (index=<ident>: `for PAT in &EXPR {` becomes `let <ident> = &EXPR; let mut <ident>_i: usize = 0;
+  //@       while <ident>_i < <ident>.len() { let PAT = &<ident>[<ident>_i]; <ident>_i += 1;` -- for bodies with `continue`)
   //@before "<statement prefix>" [nth=<k>]
   //@| <proof text placed before that statement>
   //@in_loop <ordinal>
@@ -36,7 +38,8 @@ What extraction changes (exhaustive; also recorded per function in the report):
   * with iter=<ident> a `for` loop's ghost iterator is named (`in <ident>: EXPR`), nothing of PAT or EXPR changes;
   * with enum=<ident> the HEAD of a `for (I, PAT) in EXPR.iter().enumerate()` loop is rewritten into the index
     loop it abbreviates (Verus has no specification of core::iter::Enumerate and refuses one); I, PAT, EXPR and the
-    loop body are unchanged, the rewriting is recorded per function (`desugared_loops`);
+    loop body are unchanged, the rewriting is recorded per function (`desugared_loops`); likewise index=<ident>
+    turns `for PAT in &EXPR` into the counting `while` loop it abbreviates (Verus's `for` has no `continue`);
   * attributes and doc comments in front of the fn are not copied;
   * statements named by //@drop are removed (logging macros only);
   * with external_body the body is replaced by `{ unimplemented!() }` and the fn
@@ -184,6 +187,7 @@ class Expander:
         loop_iters = {}
         in_loop_ends = []
         loop_enums = {}
+        loop_index = {}
         desugared = []
         closures = []
         cur = sig_spec
@@ -197,6 +201,8 @@ class Expander:
                         loop_iters[int(b.split()[1])] = w[5:]
                     if w.startswith("enum="):
                         loop_enums[int(b.split()[1])] = w[5:]
+                    if w.startswith("index="):
+                        loop_index[int(b.split()[1])] = w[6:]
             elif b.startswith("//@before "):
                 t = shlex.split(b[len("//@before "):])
                 _p, _kv = _parse_kv(t)
@@ -289,6 +295,23 @@ class Expander:
                 ins.append((brace + 1, "\n            let %s = &%s[%s];" % (pat, gid, idv)))
                 desugared.append({"loop": ordinal, "original": norm(head),
                                   "becomes": "let %s = %s; for %s in 0..%s.len() { let %s = &%s[%s]; .. }" % (gid, norm(expr), idv, gid, pat, gid, idv)})
+            if ordinal in loop_index:
+                # `for PAT in &EXPR {`  ->  `let <id> = &EXPR; let mut <id>_i: usize = 0;
+                #                            while <id>_i < <id>.len() <contract> { let PAT = &<id>[<id>_i]; <id>_i += 1;`
+                # (Verus's `for` does not support `continue`; its `while` does.) Same std contract as enum=: a shared
+                # borrow of a Vec/slice iterates &s[0], &s[1], .. in order (ledger 3c). The counter is advanced at the top
+                # of the body, so `continue` and `break` in the unchanged body mean what they meant.
+                head = S.text[kw:brace]
+                mh = re.match(r"for\s+(\w+)\s+in\s+&\s*(.+?)\s*$", head, re.S)
+                if not mh or not S.mask.startswith("for", kw):
+                    raise ExtractError("%s::%s: loop %d is not `for x in &E` (index= given)" % (rel, name, ordinal))
+                pat, expr = mh.group(1), mh.group(2)
+                gid = loop_index[ordinal]
+                ins.append((kw, "let %s = &%s;\n        let mut %s_i: usize = 0;\n        while %s_i < %s.len() " % (gid, expr, gid, gid, gid)))
+                dels.append((kw, brace, "desugared"))
+                ins.append((brace + 1, "\n            let %s = &%s[%s_i]; %s_i += 1;" % (pat, gid, gid, gid)))
+                desugared.append({"loop": ordinal, "original": norm(head),
+                                  "becomes": "let %s = &%s; let mut %s_i = 0; while %s_i < %s.len() { let %s = &%s[%s_i]; %s_i += 1; .. }" % (gid, norm(expr), gid, gid, gid, pat, gid, gid, gid)})
         for (prefix, k2, txt) in befores:
             try:
                 a, _b = S.find_stmt(bo, end, prefix, k2)
